@@ -110,3 +110,29 @@ func CondDepths(t *CTerm) (first, last int) {
 	gen.MoveNext()
 	return
 }
+
+// CondDepthsN: absolute depth at the first and at the last evaluation of the condition callback with the
+// given id, over `advances` MoveNext calls
+func CondDepthsN(t *CTerm, id int, advances int) (first, last int) {
+	st := &Store{}
+	n := 0
+	st.Probe = func(tag string, pid int) {
+		if tag != "c" || pid != id {
+			return
+		}
+		d := goDepth()
+		if n == 0 {
+			first = d
+		}
+		last = d
+		n++
+	}
+	gen := seq.Start[int](Build(t, st))
+	for i := 0; i < advances; i++ {
+		func() {
+			defer func() { recover() }()
+			gen.MoveNext()
+		}()
+	}
+	return
+}
